@@ -23,10 +23,11 @@ impl Model<Asn<Unresolved>> {
         Self::skip_until_after_text_ignore_ascii_case(&mut iter, "BEGIN")?;
 
         while let Some(token) = iter.next() {
-            if token.eq_text_ignore_ascii_case("END") {
+            // reserved words are upper case only (X.680 12.38): `end` and `imports` are value references
+            if token.eq_text("END") {
                 model.make_names_nice();
                 return Ok(model);
-            } else if token.eq_text_ignore_ascii_case("IMPORTS") {
+            } else if token.eq_text("IMPORTS") {
                 Self::read_imports(&mut iter)?
                     .into_iter()
                     .for_each(|i| model.imports.push(i));
